@@ -93,6 +93,8 @@ type Obligation struct {
 }
 
 type FuncTr struct {
+	bindHit map[int]bool
+	anchorHit map[int]bool // anchored assertions that matched at least one call
 	curCallArgs []Val
 	curCallCommon *ssa.CallCommon
 	lockOnly bool // verify the lock discipline only; everything else is abstracted (see locks.go)
@@ -202,7 +204,7 @@ func (ft *FuncTr) assert(at *Term, goal *Term, kind, detail, clause string, pos 
 		}
 		ft.asserted[key] = true
 	}
-	if ft.lockOnly && !strings.HasPrefix(kind, "guard.") && !strings.Contains(clause, "lockstate(") && !strings.Contains(clause, "held(") && !strings.Contains(clause, "lockframe(") {
+	if ft.lockOnly && !strings.HasPrefix(kind, "guard.") && kind != "binds" && !strings.Contains(clause, "lockstate(") && !strings.Contains(clause, "held(") && !strings.Contains(clause, "lockframe(") {
 		// lock-discipline-only function: other goals are not claimed (and are not assumed either)
 		return
 	}
@@ -740,6 +742,20 @@ func verifyFuncPass(w *World, fn *ssa.Function, c *Contract, eager map[string]bo
 	}
 	if err := ft.run(); err != nil {
 		res.Err = fmt.Errorf("%s: %v (at %s)", fn.String(), err, ft.posStr(ft.curPos))
+	}
+	if res.Err == nil {
+		// an anchored assertion that matched no call was never checked: that is a hole, not a pass
+		for i, b := range c.Binds {
+			if !ft.bindHit[i] {
+				res.Err = fmt.Errorf("%s: binds %s (%s:%d) matched no store in the function", fn.String(), b.Field, b.File, b.Line)
+			}
+		}
+		for i, a := range c.Anchored {
+			if !ft.anchorHit[i] {
+				res.Err = fmt.Errorf("%s: assert %s %s (%s:%d) matched no call in the function", fn.String(), map[bool]string{true: "before", false: "after"}[a.Before], a.Callee, a.C.File, a.C.Line)
+				break
+			}
+		}
 	}
 	return
 }
